@@ -411,6 +411,11 @@ type vArrReq struct {
 type vInitPrim struct {
 	X vPosInit `config:"x" validate:"positive"`
 }
+type vPtrDur struct {
+	T *time.Duration   `config:"t" validate:"min=5"`
+	N *time.Duration   `config:"n" validate:"max=-10"`
+	L []*time.Duration `config:"l" validate:"min=1"`
+}
 type vInlMap struct {
 	In map[string]int `config:",inline" validate:"nonzero"`
 }
@@ -419,7 +424,7 @@ type vInlMap struct {
 func H_C04_tags() {
 	p0, p1 := verif.Int64("p0"), verif.Int64("p1")
 	inRange := func(v int) bool { return verif.And(v >= 1, v <= 65535) }
-	which := verif.Choice("shape", 10)
+	which := verif.Choice("shape", 11)
 	lbl := "C04/tags: successful Unpack implies the validator tag holds/shape=" + itoa(which)
 	var uerr error
 	ok := true
@@ -502,6 +507,18 @@ func H_C04_tags() {
 			var t vInlMap
 			if uerr = c.Unpack(&t); uerr == nil {
 				ok = t.In == nil || len(t.In) > 0
+			}
+		case 10:
+			// durations behind pointers, as defaults (absent setting, kept list element): bounds are seconds
+			s0, s1 := verif.Uint16("dflt.t"), verif.Uint16("dflt.l1")
+			d0, d1, d2 := time.Duration(s0)*time.Second, 20*time.Second, time.Duration(s1)*time.Millisecond
+			c, err := ucfg.NewFrom(map[string]interface{}{"l": []interface{}{"10s"}})
+			verif.Assume(err == nil)
+			dn := -time.Duration(verif.Uint8("dflt.n")) * time.Second
+			t := vPtrDur{T: &d0, N: &dn, L: []*time.Duration{&d1, &d2}}
+			if uerr = c.Unpack(&t); uerr == nil {
+				ok = t.T != nil && t.N != nil && len(t.L) == 2 && t.L[1] != nil &&
+					verif.And(verif.And(*t.T >= 5*time.Second, *t.N <= -10*time.Second), *t.L[1] >= time.Second)
 			}
 		case 9:
 			// pre-filled inline slice kept in front of the configured elements (append)
